@@ -12,7 +12,7 @@ ALSO = {
  "C02": "Also driven: compileInterpolatableTTFs / FromDS families with mixed glyphs holding enlarged cubic components; the unrounded TTFPreProcessor result is measured against the configured conversion error (explicit errors, small ems); a source '.notdef'. The variable TrueType font itself is read back at every master (a two-component composite whose second 2x2 differs in one master). Sources carrying the cu2qu 'already quadratic' marker compiled not in place.",
  "C03": "Every fourth case enters through compileVariableTTF or an interpolatable master; requested orders with duplicates / partial lists through the glyphOrder argument.",
  "C04": "Every fourth case enters through a designspace function; the returned font's derived fields are compared with the saved ones; degenerate (single-point) outlines. TrueType glyph programs on simple and composite glyphs; every glyph-derived maxp count is compared with the stored glyf data.",
- "C05": "Also: the variable-features path of both writers (kernFeatureWriter2 through the lib key), reused writer instances, non-default language systems in any declaration order, the mark writer alongside, neutral-bidi glyphs of right-to-left scripts; KernSplitMC models the script-split writer at design level.",
+ "C05": "Also: the variable-features path of both writers (kernFeatureWriter2 through the lib key), reused writer instances, non-default language systems in any declaration order, the mark writer alongside, neutral-bidi glyphs of right-to-left scripts; KernSplitMC models the script-split writer at design level. KernDirMC models the direction-split writer (kernFeatureWriter2) the same way: C05 holds there without a signature for non-mixed pairs; F-C05-3 certified by a must-fail config.",
  "C06": "Also: variable anchors of 2-3 master families read back at every master, ligatures with two-digit component numbers, a second undeclared Indic script, a spacing accent declared base, reused writer instances. MarkWriter.tla: a level-B model of MarkFeatureWriter (pairing, mark classes, attachments, lookup grouping by graph colouring) explored by MarkWriterMC (1.3M states, two must-fail configs) and compared with every compiled font (model-attachment); mark-feature-present; Indic numbered ligature anchors of every routed name. Hand-written markClass statements under the writer's canonical names (this exposed defect 1eece05).",
  "C07": "Also: nested / mixed composites with lib-selected pre-filters on families, per-master skip lists through compileInterpolatableTTFs, variable fonts with public.fontInfo overrides, explicit list-valued info attributes. In-memory designspaces with unnamed / duplicate source names.",
  "C08": "Also: sources with lib-selected filters (PropagateAnchors on ligature marks, DottedCircle averaging with order-sensitive decimals), mark-class conflict graphs under 9 hash seeds, one caller-owned ftConfig object across the calls of a history, variable fonts with info overrides. Nested composites flattened after an earlier filter changed the intermediate glyph, inplace vs copy. Contextual mark anchors (identifier + public.objectLibs), inplace vs copy.",
